@@ -218,7 +218,7 @@ class Check:
         r = s.check()
         if r == z3.sat and os.environ.get("VERIF_VERBOSE"):
             m = s.model()
-            print("  uncovered input class:", sorted((str(d), str(m[d])) for d in m.decls() if "value" in str(d) or "Lit" in str(d))[:40])
+            print("  uncovered input class:", sorted((str(d), str(m[d])) for d in m.decls())[:60])
         self.solver_queries += 1
         self.solver_time += time.time() - t0
         if r == z3.unsat:
